@@ -254,30 +254,42 @@ def _show(value):
 
 
 def rule_decimal_and_text(ctx):
+    """O19.7: Decimal columns carry the rule's (scale, precision); text-like columns the upper length limit."""
+    from ..absint import Chooser
+    from ..world import World
+
     model = ctx.model
     ctx.res.minimum("O19.7", 2)
-    info = model.func("cutplace.fields.DecimalFieldFormat.sql_ansi_type")
-    returns = [n for n in ast.walk(info.node) if isinstance(n, ast.Return)]
-    text = ast.unparse(returns[0].value) if len(returns) == 1 else None
-    if text == "('decimal', self._scale, self._precision)":
-        init = model.func("cutplace.fields.DecimalFieldFormat.__init__")
-        source = ast.unparse(init.node)
-        if "self._precision = self.valid_range.precision" in source and "self._scale = self.valid_range.scale" in source:
-            ctx.res.ok("O19.7", "Decimal columns carry (scale, precision) of the rule's DecimalRange", True)
-        else:
-            ctx.res.fail("O19.7", "decimal digits from the rule", "fields.DecimalFieldFormat.__init__:O19.7:digits", where_of(model, init.qualname),
-                         "_scale/_precision are not taken from the rule's DecimalRange")
-    else:
-        ctx.res.fail("O19.7", "decimal ansi type", "fields.DecimalFieldFormat.sql_ansi_type:O19.7:tuple", where_of(model, info.qualname),
-                     "sql_ansi_type returns %s, expected ('decimal', scale, precision)" % text)
-    base = model.func("cutplace.fields.AbstractFieldFormat.sql_ansi_type")
-    returns = [n for n in ast.walk(base.node) if isinstance(n, ast.Return)]
-    text = ast.unparse(returns[0].value) if len(returns) == 1 else None
-    if text == "('varchar', None if self.length is None else self.length.upper_limit)":
-        ctx.res.ok("O19.7", "text columns carry length.upper_limit", True)
-    else:
-        ctx.res.fail("O19.7", "text length", "fields.AbstractFieldFormat.sql_ansi_type:O19.7:varchar", where_of(model, base.qualname),
-                     "text columns return %s" % text)
+
+    def decimal_range_stub(scale, precision):
+        @stub
+        def handler(interp_, args, kwargs):
+            return Obj(model.cls("cutplace.ranges.DecimalRange"), {"_scale": scale, "_precision": precision, "_items": None,
+                                                                  "_lower_limit": None, "_upper_limit": None}, label="decimal range")
+
+        return handler
+
+    def cell(ch):
+        scale, precision = ch.choose("rule digits", [(5, 2), (12, 0), (31, 12)])
+        interp = Interp(model, ch, stubs={"cutplace.ranges.DecimalRange": decimal_range_stub(scale, precision),
+                                          "cutplace.ranges.Range": stub(lambda i, a, k: Obj(model.cls("cutplace.ranges.Range"), {}))})
+        world = World(model, interp, ch)
+        field = interp.instantiate(ClassRef(model.cls("cutplace.fields.DecimalFieldFormat")), ["d", False, "", "RULE", world.data_format()], {})
+        result = interp.call(interp.getattr(field, "sql_ansi_type"), [], {})
+        return ("scale=%d precision=%d" % (scale, precision), result, ("decimal", scale, precision))
+
+    decide(ctx, "O19.7", "Decimal column digits come from the rule", "cutplace.fields.DecimalFieldFormat.sql_ansi_type", cell, min_cells=3)
+
+    def text_cell(ch):
+        field_type = ch.choose("type", ["Text", "Choice", "Pattern", "RegEx", "Constant"])
+        upper = ch.choose("upper length limit", [None, 1, 60])
+        interp = Interp(model, ch)
+        length = Obj(model.cls("cutplace.ranges.Range"), {"_upper_limit": upper, "_lower_limit": None, "_items": None})
+        field = Obj(model.cls("cutplace.fields.%sFieldFormat" % field_type), {"_length": length, "_field_name": "t"})
+        result = interp.call(interp.getattr(field, "sql_ansi_type"), [], {})
+        return ("%s upper=%s" % (field_type, upper), result, ("varchar", upper))
+
+    decide(ctx, "O19.7", "text column length is the upper length limit", "cutplace.fields.AbstractFieldFormat.sql_ansi_type", text_cell, min_cells=15)
 
 
 RULES = [rule_keyword_sets, rule_columns, rule_integer_types, rule_decimal_and_text]
